@@ -68,8 +68,8 @@ def cpsr_value(nzcvq=0, ge=0, it=0, e=0, a=0, i=0, f=0, t=0, m=0b10011, j=0):
 
 
 def gen_cpsr(rng, cfg, thumb, mode=None, it=None, e=None):
-    if mode is None:
-        mode = rng.choice(valid_modes(cfg))
+    if mode is None or mode not in valid_modes(cfg):
+        mode = rng.choice(valid_modes(cfg))          # (a requested mode the configuration does not have falls back to a random valid one)
     if it is None:
         it = rng.choice(IT_STATES) if (thumb and rng.random() < 0.4) else 0
     if not thumb:
@@ -168,6 +168,7 @@ CONFIGS = {
     'v7-lpae': {'arch_version': 7, 'memory_system_architecture': 'VMSA', 'have_lpae': True},
     'v7-virt': {'arch_version': 7, 'memory_system_architecture': 'VMSA', 'have_lpae': True, 'have_virt_ext': True, 'have_mp_ext': True},
     'v7-tee': {'arch_version': 7, 'have_thumbee': True},
+    'v7-vfp': {'arch_version': 7, 'have_adv_simd_or_vfp': True},
     # implementation-defined vectors at address 0 / an odd place (SCTLR.VE = 1 uses them for IRQ / FIQ; the reset vector when the configuration says so)
     'v6-vec': {'impdef_irq_vector': 0, 'impdef_fiq_vector': 0, 'has_imp_def_reset_vector': True, 'impdef_reset_vector': 0x2000},
 }
@@ -306,8 +307,8 @@ def step_case(rng, cfgname, thumb, code, mode=None, it=None, e=None, code_base=N
                 st['hmair0'] = rng.getrandbits(32)
                 st['hmair1'] = rng.getrandbits(32)
             st['hvbar'] = 0x8000
-            st['hcptr'] = rng.getrandbits(14)
-            st['hstr'] = rng.getrandbits(16)
+            st['hcptr'] = rng.getrandbits(14) | (rng.getrandbits(1) << 20) | (rng.getrandbits(1) << 31)      # TCP0..13, TTA, TCPAC
+            st['hstr'] = rng.getrandbits(18)                                                               # T0..T15, TTEE, TJDBX
     if rng.random() < 0.25:
         st['event_register'] = True             # an event sent by another observer before this step (SEV elsewhere / send_event_local)
     poke = [(pc, code)]
